@@ -1,0 +1,55 @@
+//go:build verif
+
+// Contracts for package jsondb, checked by /verif/govc (comment-only file).
+package jsondb
+
+// WF: the ID->slot map points at a slot holding that ID, and every stored ID is mapped to its last slot.
+//@ pred WF(s *Scanner) = s.db != nil
+//@   && (forall id in keys(s.sigMap) :: 0 <= s.sigMap[id] && s.sigMap[id] < len(s.db.Signatures) && s.db.Signatures[s.sigMap[id]].ID == id)
+//@   && (forall j in 0..len(s.db.Signatures) :: (s.db.Signatures[j].ID in s.sigMap) && s.sigMap[s.db.Signatures[j].ID] >= j)
+//@ pred WF0(s *Scanner) = s != nil && (s.db == nil ==> len(s.sigMap) == 0) && (s.db != nil ==> WF(s))
+
+//@ func (*Scanner).ensureID
+//@   requires sig != nil
+//@   modifies sig
+//@   ensures result == nil ==> sig.ID != ""
+//@   ensures result == nil ==> *sig == with(old(*sig), "ID", sig.ID)
+//@   ensures old(sig.ID) != "" ==> result == nil && sig.ID == old(sig.ID)
+
+//@ func (*Scanner).AddSignature
+//@   requires WF0(s)
+//@   requires sig != nil ==> sig != s.db
+//@   modifies s
+//@   modifies s.db
+//@   modifies s.sigMap
+//@   modifies sig
+//@   ensures [C18.json.wf] result == nil ==> WF(s)
+//@   ensures [C18.json.get] result == nil ==> (sig.ID in s.sigMap) && s.db.Signatures[s.sigMap[sig.ID]] == *sig
+//@   ensures [C18.json.nil] sig == nil ==> result != nil
+
+//@ func (*Scanner).GetSignature
+//@   requires s != nil && (s.db != nil ==> WF(s))
+//@   ensures [C18.json.get] s.db != nil && (id in s.sigMap) ==> result1 == nil && result0 != nil && *result0 == s.db.Signatures[s.sigMap[id]]
+//@   ensures [C18.json.miss] (s.db == nil || !(id in s.sigMap)) ==> result1 != nil
+
+//@ func (*Scanner).deepCopySignature
+//@   requires src != nil
+//@   ensures result != nil && fresh(result) && *result == old(*src)
+
+//@ func (*Scanner).AddSignatures
+//@   requires WF0(s)
+//@   requires s.db != nil ==> sref(sigs) != sref(s.db.Signatures)
+//@   modifies s
+//@   modifies s.db
+//@   modifies s.sigMap
+//@   modifies sigs
+//@   ensures [C18.json.wf] result == nil && len(sigs) > 0 ==> WF(s)
+//@   ensures [C18.json.batch] result == nil ==> forall t in 0..len(sigs) :: (sigs[t].ID in s.sigMap) && s.db.Signatures[s.sigMap[sigs[t].ID]].ID == sigs[t].ID
+//@   ensures [C18.json.last] result == nil ==> forall t in 0..len(sigs) :: (forall u in t+1..len(sigs) :: sigs[u].ID != sigs[t].ID) ==> s.db.Signatures[s.sigMap[sigs[t].ID]] == sigs[t]
+//@   loop 1 modifies s
+//@   loop 1 modifies s.db
+//@   loop 1 modifies s.sigMap
+//@   loop 1 modifies sigs
+//@   loop 1 invariant 0 <= #i && #i <= len(sigs) && s.db != nil && s.db == pre(s.db) && (s.sigMap == pre(s.sigMap) || freshSincePre(s.sigMap))
+//@   loop 1 invariant WF(s) && sref(sigs) != sref(s.db.Signatures)
+//@   loop 1 invariant forall t in 0..#i :: (sigs[t].ID in s.sigMap) && ((forall u in t+1..#i :: sigs[u].ID != sigs[t].ID) ==> s.db.Signatures[s.sigMap[sigs[t].ID]] == sigs[t])
